@@ -149,7 +149,7 @@ def run_r(case):
             lst.append(lambda o, name, old, new: ctl.notify(old, new))
     ident = dict((id(p), i) for i, p in enumerate(pool))
     gc.collect()
-    base = [sys.getrefcount(p) for p in pool]
+    base = [sys.getrefcount(pool[i]) for i in range(POOL)]   # measured exactly as below (no loop variable)
     outs, hits, tags = [], [], set()
     for op in [o.strip() for o in ops_s.split(";") if o.strip()]:
         kind, name, key, v, kv = parse_r_op(op)
@@ -178,7 +178,7 @@ def run_r(case):
             res = "err " + exc_name(e)
             del e
         N.fail_at = None
-        gc.collect()
+        gc.collect(0)   # nothing here builds cycles (the exception is deleted above); full collection once per case
         d = obj.__dict__
         held = [0] * POOL
         shown = []
@@ -199,8 +199,14 @@ def run_r(case):
                 hits.append({"signature": "refcount:%sattr-%s:%s" % (kind, cls, which),
                              "what": "after `%s` (%s) object #%d has %+d references but obj.__dict__ holds %d" % (
                                  op, res, i, refs[i], held[i])})
-                # the count is off for good: re-base so that one defect is reported once
-                base[i] += refs[i] - held[i]
+                # the count is off for good.  A deficit would free the object while we still hold it (and
+                # crash this process at the next collection): give the missing references back.
+                if refs[i] < held[i]:
+                    import ctypes
+                    for _ in range(held[i] - refs[i]):
+                        ctypes.pythonapi.Py_IncRef(ctypes.py_object(pool[i]))
+                else:
+                    base[i] += refs[i] - held[i]
     del safety
     return " ; ".join(outs), hits, tags
 
